@@ -1,7 +1,7 @@
 (* C19 - Header locators are well-formed and let a same-chain peer continue from our tip. *)
 From BR Require Import Base.Prelude Base.Compact Headers.Tree Headers.TreeBasics Headers.TreeInv
      Headers.TreeSteps Headers.TreeStream Headers.TreeProps Headers.TreeExample Headers.TreeLocator Blocks.Merkle
-     Blocks.MerkleProofs.
+     Blocks.MerkleProofs Headers.SplitLocator Headers.SplitLocatorProofs.
 Open Scope N_scope.
 
 (* no hash appears twice *)
@@ -27,9 +27,26 @@ Theorem C19_peer_connects : forall s max x, Inv s -> In x (locator s max) ->
   find_mem (nodes s) x <> None.
 Proof. exact locator_in_memory. Qed.
 Print Assumptions C19_peer_connects.
-(* The split fork points (mainnet heights 478558 / 556766) are inserted by the code at those
-   heights; the histories of the model stay far below them, and the verify-only locator is
-   checked by the correspondence (locsim cases), not proved here. *)
+
+(* The split fork points (mainnet heights 478558 / 556766): Headers/SplitLocator.v models the
+   branch-level walk with the split table over any best chain [hash_at], any memory horizon [low]
+   and any split table; the harness runs it against the real fixture chain around the splits. *)
+Theorem C19_splits_best_count : forall hash_at low sps tip max, (1 <= max)%nat ->
+  (best_count (branch_locator hash_at low sps tip max) <= max)%nat.
+Proof. exact branch_locator_best_count. Qed.
+Print Assumptions C19_splits_best_count.
+
+Theorem C19_splits_entries : forall hash_at low sps tip max, (0 <= tip)%Z -> (low <= tip)%Z ->
+  Forall (fun e => snd e = true \/ (snd (fst e) = hash_at (fst (fst e)) /\ (low <= fst (fst e) <= tip)%Z))
+         (branch_locator hash_at low sps tip max).
+Proof. exact branch_locator_entries. Qed.
+Print Assumptions C19_splits_entries.
+
+Theorem C19_splits_starts_below_tip : forall hash_at low sps tip max, (0 < tip)%Z -> (low <= tip - 1)%Z ->
+  (1 <= max)%nat ->
+  exists rest, branch_locator hash_at low sps tip max = ((tip - 1)%Z, hash_at (tip - 1)%Z, false) :: rest.
+Proof. exact branch_locator_starts_below_tip. Qed.
+Print Assumptions C19_splits_starts_below_tip.
 
 Example C19_example : locator (final ex_cfg ex_g ex_ops) 10 = [3; 4].
 Proof. vm_compute. reflexivity. Qed.
